@@ -37,6 +37,7 @@ type c05Flattening struct {
 	types   []c05Flat // deduplicated
 	paths   []*c05FlatPath
 	unknown string
+	broken  string // a defect seen while enumerating the list
 	pos     token.Pos
 }
 
@@ -144,7 +145,14 @@ func (fl *c05Flattening) observe(r *core.R, sc c05Scen, nilField *types.Var, see
 
 // elements classifies the members of the list marshalled under `elements` on one path.
 func (fl *c05Flattening) elements(r *core.R, x *c03Interp, pa *c03Path, list *c03V, fp *c05FlatPath, seen map[string]bool) {
-	if list.K != c03KList || (list.Base != nil && pa.St.Zero(list.Base) != triT) {
+	if made, known, exact, slots := c03MadeExact(list); list.K == c03KList && made && known {
+		// a presized list filled by index: as many slots as stores, or the document gets null elements / the fill panics
+		if !exact {
+			fl.broken = fmt.Sprintf("the list marshalled under `elements` is made with %d slot(s) (one per counted list, as the loops run once per list here) but %d of them are assigned before it is marshalled: the counting expression and the filling pass disagree, the document carries null elements or the fill runs past the end", slots, len(list.Elems))
+			fl.pos = pa.Pos
+			return
+		}
+	} else if list.K != c03KList || (list.Base != nil && pa.St.Zero(list.Base) != triT) {
 		fl.unknown = "the value marshalled under `elements` is " + list.String() + ", not a list built from the receiver's fields"
 		return
 	}
@@ -247,7 +255,9 @@ func c05J1(r *core.R) {
 	if fl == nil {
 		return
 	}
-	if fl.unknown != "" {
+	if fl.broken != "" {
+		r.Bad("flatten@OSM.MarshalJSON", fl.pos, "%s", fl.broken)
+	} else if fl.unknown != "" {
 		r.Unknown("flatten@OSM.MarshalJSON", fl.pos, "cannot enumerate what OSM.MarshalJSON puts into the elements array: %s", fl.unknown)
 	} else {
 		var names []string
